@@ -509,6 +509,16 @@ where
     type Error = std::fmt::Error;
 
     fn write_extant(self) -> Result<Self::Repr, Self::Error> {
+        let AttributePrinter {
+            fmt,
+            delegated,
+            strategy,
+            ..
+        } = self;
+        if delegated {
+            //The body of the attribute was opened by the record that delegated.
+            write!(fmt, "{})", strategy.attr_body_padding())?;
+        }
         Ok(())
     }
 
@@ -694,8 +704,16 @@ where
     type Body = Self;
 
     fn record(mut self, _num_attrs: usize) -> Result<Self::Header, Self::Error> {
-        let AttributePrinter { fmt, strategy, .. } = &mut self;
-        write!(fmt, "({}", strategy.attr_body_padding())?;
+        let AttributePrinter {
+            fmt,
+            delegated,
+            strategy,
+            ..
+        } = &mut self;
+        //When delegated to, the body of the attribute was opened by the record that delegated.
+        if !*delegated {
+            write!(fmt, "({}", strategy.attr_body_padding())?;
+        }
         Ok(self)
     }
 }
